@@ -182,6 +182,56 @@ def gen_cases(rng, tier):
     return cases
 
 
+
+# --------------------------------------------------------------------------- generated table (REL round)
+def regen_arm_observers():
+    """coq/gen/ArmObservers.v — for every arm of BuiltInFunction::call (blots-core/src/functions.rs), read off its
+    SOURCE TEXT: does it apply Value::equals, does it apply Value::compare, does it call a function value
+    (FunctionDef::call).  Properties/C05.v proves that the arms applying Value::equals are exactly the built-ins that
+    the emission-equivalence theorems exclude (biok_full, finding F53); Properties/C02.v that the arms calling back /
+    comparing are the ones the renaming proofs treat as such."""
+    import re
+    path = os.path.join(c.REPO, "blots-core", "src", "functions.rs")
+    try:
+        src = open(path).read()
+        m = re.search(r"pub fn name\(&self\)[^{]*\{\s*match self \{(.*?)\n        \}", src, re.S)
+        names = dict(re.findall(r"Self::(\w+) => \"(\w+)\"", m.group(1)))
+        i = src.index("    pub fn call(\n        &self,\n        args: Vec<Value>")
+        j = src.index("\n        }\n    }\n", i)
+        body = src[src.index("        match self {\n", i):j]
+    except (OSError, ValueError, AttributeError) as e:
+        raise c.BrokenTie("translator regen_arm_observers: BuiltInFunction::name / ::call not found in functions.rs as expected", repr(e))
+    heads = list(re.finditer(r"^            ((?:Self::\w+)(?:\s*\|\s*Self::\w+)*) =>", body, re.M))
+    if not heads:
+        raise c.BrokenTie("translator regen_arm_observers: no match arms found in BuiltInFunction::call", body[:300])
+    arms = {}
+    for k, h_ in enumerate(heads):
+        text = body[h_.end():heads[k + 1].start() if k + 1 < len(heads) else len(body)]
+        text = re.sub(r"//[^\n]*", "", text)            # comments do not count
+        for variant in re.findall(r"Self::(\w+)", h_.group(1)):
+            arms[variant] = text
+    missing = sorted(set(names) - set(arms))
+    if missing:
+        raise c.BrokenTie("translator regen_arm_observers: variants without an arm in BuiltInFunction::call", ", ".join(missing))
+
+    def sel(pred):
+        got = sorted(names[v] for v, t in arms.items() if v in names and pred(t))
+        return " | ".join("B_" + n for n in got)
+    rows = [("src_applies_equals", lambda t: ".equals(" in t),
+            ("src_applies_compare", lambda t: ".compare(" in t),
+            ("src_calls_function", lambda t: re.search(r"\b(func_def|fd|function_def)\s*\.\s*call\(", t) is not None
+                                             or re.search(r"\.call\(\s*\*func\b", t) is not None)]
+    out = ["(* GENERATED by checks/c05.py:regen_arm_observers from the source text of BuiltInFunction::call",
+           "   (blots-core/src/functions.rs). Do not edit. *)", "From Coq Require Import Bool.",
+           "Require Import Blots.gen.Builtins.", ""]
+    for name, pred in rows:
+        pats = sel(pred)
+        out.append("Definition %s (b : builtin) : bool :=" % name)
+        out.append("  match b with %s_ => false end." % (pats + " => true | " if pats else ""))
+    out.append("Definition src_arm_count : nat := %d." % len(arms))
+    c.write_if_changed(os.path.join(c.GEN, "ArmObservers.v"), "\n".join(out) + "\n")
+    return {name: sel(pred) for name, pred in rows}
+
 # --------------------------------------------------------------------------- running
 def rust_emit(h, cases):
     lines = ["\t".join([c.hexs(p)] + [c.hexs(a) for a in args]) for _, p, args in cases]
